@@ -567,6 +567,7 @@ func c18Corpus() []struct {
 }
 
 func checkC18(c *Ctx) {
+	storageFaults(c, "C18")
 	c18StaleTemp(c)
 	c.SetRule("one case = one history (1–60 operations: Set/Get/Delete/KeysWithSuffix/reopen + SaveEntity/EntityWithName/DeleteEntity/Entities) " +
 		"on one fresh directory, over 1–6 keys (incl. keys with ':', aliasing pairs, 200–251 byte keys, arbitrary bytes) and 1–4 entity names " +
@@ -696,6 +697,16 @@ func c18StaleTemp(c *Ctx) {
 			if got, err := st2.Get(key); err != nil || !bytes.Equal(got, old) {
 				c.Violate("storage Get after a restart differs from the last value set (stale temporary file present)", id,
 					map[string]interface{}{"key": key, "stale_tmp_bytes": len(junk)}, hx(old), fmt.Sprint(hx(got), err))
+			}
+			if r.Intn(2) == 0 { // the key is deleted while the abandoned temporary file is still there: it must stay deleted
+				st2.Delete(key)
+				old = nil
+			}
+		}
+		if old == nil {
+			if got, err := st2.Get(key); err == nil {
+				c.Violate("storage Get returns a value for a key that was deleted or never set (content of an abandoned temporary file)", id,
+					map[string]interface{}{"key": key, "stale_tmp_bytes": len(junk)}, "not found", trunc(hx(got), 80))
 			}
 		}
 		val := randBytes(r, r.Intn(len(junk)+10))
